@@ -46,11 +46,21 @@ check('C03', 'E2-world',
       'DESIGN.md section 7 C03')
 
 
+check('C05', 'E2-world',
+      'Twin-world differential under a seeded read schedule: world A runs the generated history of writes and reads (masks, values, '
+      'statistics, histograms, copies, views; file rewrite + simulated poll timer -> LoadLog.reload); at up to three checkpoints a cold '
+      'twin is rebuilt from reset process globals by replaying the writes only, and every observable must agree. Sampling, not proof.',
+      'Both worlds run glue: a result that is wrong with warm and cold caches alike is invisible (C01/C03/C14 use independent models). '
+      'Write patterns of the open findings in known_findings.json are excluded by generator guards once the state has been read.',
+      'deterministic simulation: seeded read/write scheduler + simulated poll clock and file rewrites + twin-world (cold replay) oracle',
+      'DESIGN.md section 7 C05')
+
+
 def na(pid, reason):
     NA[pid] = dict(property_id=pid, reason=reason)
 
 PENDING = 'check under construction in this build round (see DESIGN.md section 7); not claimed until its oracle is proven sound on the unchanged tree'
-for pid in ['C01', 'C02', 'C04', 'C05', 'C11', 'C12', 'C14', 'C16', 'C17', 'C18', 'C19']:
+for pid in ['C01', 'C02', 'C04', 'C11', 'C12', 'C14', 'C16', 'C17', 'C18', 'C19']:
     na(pid, PENDING)
 na('C08', 'pure function of region parameters and points: no schedule, clock, fault, shared state or history for a simulator to vary (DESIGN.md section 8)')
 na('C09', 'pure translation roi -> subset state; nothing stateful or faulty involved (DESIGN.md section 8)')
